@@ -250,7 +250,7 @@ pub enum Keyword {
     Use,
     Variable,
     View,
-    Vpgk,
+    Vpkg,
     Vmode,
     Vprop,
     Vunit,
